@@ -6,7 +6,7 @@
 From Coq Require Import List NArith ZArith Bool Permutation.
 From PM Require Import Base.Bytes Base.Outcome Gen.GenConsts Model.ScriptAst Model.Enqueue Model.Script Model.Device Model.DevHarness
                        Model.Client Model.CliWorld Model.Daemon Spec.Proto
-                       Proofs.ClientProto Proofs.ClientStream Proofs.DeviceInv Proofs.DeviceRun Proofs.DeviceInvG Proofs.DeviceRunG Proofs.DeviceTimer Proofs.DaemonLedger Proofs.DaemonPending Model.Xpoll Proofs.XpollProofs.
+                       Proofs.ClientProto Proofs.ClientStream Proofs.DeviceInv Proofs.DeviceRun Proofs.DeviceInvG Proofs.DeviceRunG Proofs.DeviceTimer Proofs.DaemonLedger Proofs.DaemonFrame Proofs.DaemonPending Model.Xpoll Proofs.XpollProofs.
 From PM Require Properties.C07.
 Import ListNotations.
 Local Open Scope Z_scope.
@@ -29,6 +29,10 @@ Section C04.
        - for every live client the output produced so far parses as protocol tokens with
              #terminal replies + (1 if a command is in progress) = #lines handed to _parse_input
          i.e. exactly one terminal (1xx/2xx) reply per request line, the outstanding one being the command in progress;
+         and (cli_ok, unless the descriptor failed: dc_bad) the token list is accepted by the protocol recogniser, which is
+         at rest unless a command is in progress - telemetry / diagnostic lines reach a client only while its command is
+         pending (the device layer's callbacks are live: Proofs/DeviceInvG.tg_live) - and the bytes written so far
+         followed by the bytes still queued are exactly that output;
        - every time-out handed to poll is strictly positive (no zero-time-out spin requested by the device layer). *)
   Theorem C04_daemon_invariant : forall st now plans rs,
     boot compress st -> Z.of_nat (length rs) < INT_MAX - 1 ->
@@ -44,9 +48,9 @@ Section C04.
   Proof. exact (daemon_invariant expand_str ranged_sorted ranged_plain sorted rmatch compress short_circuit). Qed.
 
   (* one pass re-establishes the invariant (the induction step, usable from any state that satisfies it) *)
-  Theorem C04_pass_invariant : forall st r, DPInv compress st -> 1 <= dm_seq st < INT_MAX ->
+  Theorem C04_pass_invariant : forall st r, DPInv compress st -> NL st -> 1 <= dm_seq st < INT_MAX ->
     match dstep expand_str ranged_sorted ranged_plain sorted rmatch compress short_circuit st r with
-    | Ok (st', o) => DPInv compress st' /\ (forall t, do_tmo o = Some t -> 0 < t) /\ length (dm_devs st') = length (dm_devs st) /\
+    | Ok (st', o) => DPInv compress st' /\ NL st' /\ (forall t, do_tmo o = Some t -> 0 < t) /\ length (dm_devs st') = length (dm_devs st) /\
                      dm_seq st <= dm_seq st' <= dm_seq st + 1
     | Hang _ => True
     | _ => False
